@@ -976,6 +976,11 @@ ANIwriteann(int32       ann_id, /* IN: annotation id */
             HE_REPORT_GOTO("Bad annotation type for this call", FAIL);
     }
 
+    /* the stored element of a data annotation is the text plus 4 bytes of tag/ref:
+     * refuse a length that cannot be stored before the old annotation is given up */
+    if (ann_len < 0 || ((ann_tag == DFTAG_DIL || ann_tag == DFTAG_DIA) && ann_len > INT32_MAX - 4))
+        HGOTO_ERROR(DFE_ARGS, FAIL);
+
     /* Get annotation entry so that we can extract tag/ref of element
      * Note that for file labels and descriptions the tag/ref contain
      * DFTAG_XXX and annotation reference number */
